@@ -7,6 +7,10 @@ CONSTANTS
   MaxDstFrag = 3
   MaxQ = 4
   Ops = {"read", "length", "argv", "arrmsg", "memchr", "memfcn", "memstr", "memtok", "append", "qget"}
+  EmptyBases = {"slice"}
+  ForeignBytes = {97}
+  ArrKinds = {"exact", "shared", "roomy"}
+  MaxFail = 5
 VIEW View
 INVARIANTS TypeOK Refines
 PROPERTIES DesignAgrees Normalised OnceAgrees
